@@ -266,10 +266,12 @@ def finish(mod, args, parts, digests, inconclusive, t0, nsh):
                 m["count"] += v["count"]
                 m["reproduced"] = m["reproduced"] or v["reproduced"]
     lines, viol_lines, known_hits, groups = [], [], {}, {}
-    os.makedirs(os.path.join(VERIF, "replays"), exist_ok=True)
-    for fn in os.listdir(os.path.join(VERIF, "replays")):       # stale witnesses of earlier runs of this property
+    scratch_out = bool(os.environ.get("VERIF_NO_EVIDENCE"))   # selftest runs: keep evidence/ and replays/ untouched
+    rdir = os.path.join(WORK, "replays-%d" % os.getpid()) if scratch_out else os.path.join(VERIF, "replays")
+    os.makedirs(rdir, exist_ok=True)
+    for fn in os.listdir(rdir):       # stale witnesses of earlier runs of this property
         if fn.startswith(prop + "-") and fn.endswith(".json"):
-            os.remove(os.path.join(VERIF, "replays", fn))
+            os.remove(os.path.join(rdir, fn))
     unknown = 0
     for k, v in sorted(merged.items()):
         vi = core.Viol(k[0], k[1], k[2], None, None, None)
@@ -285,7 +287,7 @@ def finish(mod, args, parts, digests, inconclusive, t0, nsh):
         unknown += 1
         import hashlib
         hh = hashlib.sha1(("|".join(k)).encode()).hexdigest()[:10]
-        path = os.path.join(VERIF, "replays", "%s-%s.json" % (prop, hh))
+        path = os.path.join(rdir, "%s-%s.json" % (prop, hh))
         with open(path, "w") as f:
             json.dump({"property": prop, "tier": tier, "seed": args.seed, "key": list(k), "count": v["count"],
                        "violation": core.enc(v["viol"]), "case": core.enc(v["case"]),
@@ -347,8 +349,9 @@ def finish(mod, args, parts, digests, inconclusive, t0, nsh):
         "assumptions": list(getattr(mod, "ASSUMPTIONS", [])),
         "wall_s": round(wall, 2), "violations": unknown,
     }
-    os.makedirs(os.path.join(VERIF, "evidence"), exist_ok=True)
-    with open(os.path.join(VERIF, "evidence", prop + ".json"), "w") as f:
+    edir = os.path.join(WORK, "evidence-%d" % os.getpid()) if scratch_out else os.path.join(VERIF, "evidence")
+    os.makedirs(edir, exist_ok=True)
+    with open(os.path.join(edir, prop + ".json"), "w") as f:
         json.dump(_jsonable(ev), f, indent=1)
     for ln in lines:
         print(ln)
